@@ -143,12 +143,11 @@ impl CQueueLLAllocatorInner {
             return Err(());
         }
 
-        let excess_size = region.end_addr() - alloc_end;
-        if excess_size > 0 && excess_size < size_of::<ListNode>() {
-            // rest of region too small to hold a ListNode (required because the
-            // allocation splits the region in a used and a free part)
-            return Err(());
-        }
+        // A remainder that is too small to hold a ListNode is no reason to reject the
+        // region: `allocate` only splits off remainders that can hold a further
+        // allocation and discards smaller ones. Rejecting here made requests of
+        // `page_size - 8` bytes unsatisfiable even by a fresh page, so that
+        // `find_region` kept adding pages forever.
 
         // region suitable for allocation
         Ok(alloc_start)
